@@ -23,6 +23,8 @@ struct RMod {
     gates: Vec<&'static str>,
     budget: u32,
     task_rounds: u32,
+    inc: u32,
+    restarts: bool,
 }
 
 impl RMod {
@@ -59,6 +61,25 @@ impl Module for RMod {
         self.act(d | 2); // every module starts by sending and scheduling
         let name = self.name.clone();
         let rounds = self.task_rounds;
+        let inc = self.inc;
+        // two tasks with identical timer deadlines: the order in which they resume is part of the history
+        for twin in 0..2 {
+            let name = self.name.clone();
+            tokio::spawn(async move {
+                for i in 0..3u32 {
+                    sleep(Duration::from_micros(700 * (i as u64 + 1))).await;
+                    h(format!("twin {name}#{twin} inc={inc} round={i} t={}", SimTime::now().as_nanos()));
+                }
+            });
+        }
+        if self.restarts && inc == 1 {
+            // the module is shut down and restarted once; the new incarnation spawns its tasks (and select!s) again
+            let d = Duration::from_micros(900 + (d % 700) as u64);
+            tokio::spawn(async move {
+                sleep(d).await;
+                current().shutdow_and_restart_in(Duration::from_micros(300));
+            });
+        }
         // a task whose select! has two branches that become ready at the same instant: tokio picks by its seeded RNG
         tokio::spawn(async move {
             for i in 0..rounds {
@@ -69,9 +90,20 @@ impl Module for RMod {
                     () = sleep(d) => "B",
                     () = sleep(d + Duration::from_micros(1)) => "C",
                 };
-                h(format!("task {name} round={i} t={} branch={branch} x={x:.9}", SimTime::now().as_nanos()));
+                h(format!("task {name} inc={inc} round={i} t={} branch={branch} x={x:.9}", SimTime::now().as_nanos()));
             }
         });
+    }
+    fn reset(&mut self) {
+        self.inc += 1;
+        h(format!("reset {} t={}", self.name, SimTime::now().as_nanos()));
+    }
+    fn at_sim_end(&mut self) -> Result<(), RuntimeError> {
+        // emitted during tear-down: never processed, and must not show up in a later simulation of this process
+        schedule_in(Message::default().id(60000), Duration::from_secs(1));
+        send(Message::default().id(60001), self.gates[0]);
+        h(format!("end {}", self.name));
+        Ok(())
     }
     fn handle_message(&mut self, msg: Message) {
         let d = random::<u32>();
@@ -88,9 +120,10 @@ fn build_and_run(scenario: u64, seed: u64) {
     let names = ["a", "b", "c"];
     let budget = 6 + g.below(10) as u32;
     let rounds = 2 + g.below(6) as u32;
-    sim.node("a", RMod { name: "a".into(), gates: vec!["out", "o2"], budget, task_rounds: rounds });
-    sim.node("b", RMod { name: "b".into(), gates: vec!["out"], budget, task_rounds: rounds });
-    sim.node("c", RMod { name: "c".into(), gates: vec!["back"], budget, task_rounds: 1 + rounds / 2 });
+    let restarter = g.below(3);
+    sim.node("a", RMod { name: "a".into(), gates: vec!["out", "o2"], budget, task_rounds: rounds, inc: 1, restarts: restarter == 0 });
+    sim.node("b", RMod { name: "b".into(), gates: vec!["out"], budget, task_rounds: rounds, inc: 1, restarts: restarter == 1 });
+    sim.node("c", RMod { name: "c".into(), gates: vec!["back"], budget, task_rounds: 1 + rounds / 2, inc: 1, restarts: restarter == 2 });
     let mut ch = |g: &mut Rng| {
         let jitter = Duration::from_micros(50 + g.below(400));
         let policy = if g.chance(1, 2) { ChannelDropBehaviour::Queue(None) } else { ChannelDropBehaviour::Drop };
